@@ -1143,6 +1143,47 @@ def run_junk(ctx, rng, j):
     return [0, 0, 0, 0, 0, 0]
 
 
+def run_rewrite(ctx, rng, j):
+    """a file of a text format is read, REWRITTEN under the same name, and read again: the second read returns what the file holds NOW (compared with the same
+    text written under a fresh name), whether the first read was refused (sample count vs header, duplicated channel) or succeeded -- and a refused read in
+    between changes nothing for a file that was not touched"""
+    import shutil
+    kind = ["saf", "mshark", "peer"][j % 3]
+    gen, build = {"saf": (gen_saf, build_saf), "mshark": (gen_mshark, build_mshark), "peer": (gen_peer, build_peer)}[kind]
+    first_err = [None, "ndat_more", "ndat_less"][(j // 3) % 3] if kind != "peer" else [None, "npts_more", "npts_less"][(j // 3) % 3]
+    if kind == "peer" and first_err not in (None,) + tuple(PEER_ERRS):
+        first_err = PEER_ERRS[(j // 3) % len(PEER_ERRS)]
+    c1 = gen(rng, err=first_err); c1["io"] = "path"; c1["wrap"] = False
+    c2 = gen(rng); c2["io"] = "path"; c2["wrap"] = False
+    if kind == "peer":
+        c2["files"] = c2["files"][:len(c1["files"])] if len(c2["files"]) >= len(c1["files"]) else c2["files"]
+    files = []
+    c = dict(kind="rewrite", fmt=kind, first=c1, second=c2)
+    try:
+        arg1, f1, _, _ = build(c1)
+        files += f1
+        arg2, f2, _, _ = build(c2)
+        files += f2
+        if len(f1) != len(f2) or not f1:
+            ctx.count("rewrite:skipped-unequal-file-count")
+            return
+        st1 = call_read(arg1, c1["deg"])
+        for src, dst in zip(f2, f1):
+            shutil.copyfile(src, dst)                                 # the second text under the names of the first ...
+        again = call_read(arg1, c2["deg"])                            # (read before any other read succeeds: nothing in between may clear what the first left)
+        fresh_read = call_read(arg2, c2["deg"])                       # ... and under fresh names
+        ctx.count("rewrite:%s:first-%s:second-%s" % (kind, st1[0], fresh_read[0]))
+        ctx.case(("rewrite", kind, j, canon(c1), canon(c2)), True, sample=None)
+        ctx.supporting["rewritten_file_cases"] = ctx.supporting.get("rewritten_file_cases", 0) + 1
+        ok = (again[0] == fresh_read[0]) and (again[0] != "ok" or rec_equal(again[1], fresh_read[1])) and (again[0] == "ok" or again[1] == fresh_read[1])
+        if not ok:
+            ctx.violation("file-read-as-it-now-stands", dict(case=c, first_read=st1[0] if st1[0] != "err" else st1, rewritten_read=again[0] if again[0] == "ok" else again,
+                                                             same_text_under_fresh_name=fresh_read[0] if fresh_read[0] == "ok" else fresh_read,
+                                                             note="the file was rewritten under the same name between the two reads"), seam="hvsrpy.read twice on one path")
+    finally:
+        rm(files)
+
+
 def polyglot_case(rng):
     """one text that is both a SAF and a MiniShark file (tab separated rows satisfy both row expressions): the two
     readers return different samples (MiniShark divides by gain and conversion), so the dispatch order is observable"""
@@ -1314,6 +1355,8 @@ def run(ctx):
     polys = [run_polyglot(ctx, polyglot_case(rng), lines) for _ in range(ctx.budget(20, 150))]
     for j in range(ctx.budget(42, 420)):
         run_junk(ctx, rng, j)
+    for j in range(ctx.budget(27, 180)):
+        run_rewrite(ctx, rng, j)
     lines.append("readers.dispatch 0 0 0 0 0 0")
     outs = run_driver(lines, exe=EXE)
     if not outs[-1].startswith("err"):
